@@ -45,6 +45,10 @@ pub struct Case {
     /// admit a closer one, which is a removal like any other
     #[serde(default)]
     pub cap: u8,
+    /// capacity of the driver's local command channel (0 = the shipped 10 000): with 1..4 slots a burst of
+    /// unacknowledged writes finds the channel full when their completion notices are due
+    #[serde(default)]
+    pub chan: u8,
 }
 
 pub fn key_of(node: u8, k: u8) -> RecordKey {
@@ -123,8 +127,9 @@ pub fn case_strategy() -> BoxedStrategy<Case> {
         proptest::collection::vec(segment_strategy(), 0..vh_core::depth(40, 140)),
         proptest::collection::vec(any::<u16>(), 0..8),
         prop_oneof![3 => Just(0u8), 1 => 2u8..6],
+        prop_oneof![3 => Just(0u8), 1 => 1u8..5],
     )
-        .prop_map(|(node, cache, segs, settle_order, cap)| Case { node, cache, ops: segs.into_iter().flatten().collect(), settle_order, cap })
+        .prop_map(|(node, cache, segs, settle_order, cap, chan)| Case { node, cache, ops: segs.into_iter().flatten().collect(), settle_order, cap, chan })
         .boxed()
 }
 
@@ -155,11 +160,13 @@ pub fn notif_key(c: &LocalSwarmCmd) -> Option<RecordKey> {
 
 pub fn check(case: &Case, ctx: &mut Ctx) {
     let dir = new_tempdir();
-    let mut sim = DriverSim::new_node(
+    let mut sim = DriverSim::new_node_chan(
         dir.path(),
         keypair_from_seed(case.node as u64),
         Some((if case.cap == 0 { 4096 } else { case.cap as usize }, case.cache.max(1) as usize)),
+        (case.chan > 0).then_some(case.chan as usize),
     );
+    ctx.label_if(case.chan > 0, "small_command_channel");
     let cap = if case.cap == 0 { 4096 } else { case.cap as usize };
     let (mut evictions, mut refusals_at_capacity) = (0, 0);
     let keys: Vec<RecordKey> = (0..NKEYS as u8).map(|k| key_of(case.node, k)).collect();
